@@ -68,6 +68,8 @@ types, assume_specifications, spec functions, lemmas):
   //@loopend <ordinal> | <text>      ghost/proof line placed right before the closing brace of the n-th loop's body (fall-through end of an iteration; erased code)
   //@loopafter <ordinal> | <text>    ghost/proof line placed right after the closing brace of the n-th loop (erased code)
   //@before <needle> | <text>        ghost/proof line placed before the statement that starts with <needle> (erased code)
+  //@atreturn | <text>               ghost/proof line placed before EVERY `return` of the body (after closure lifting) and before its closing brace: an obligation on
+                                      every exit, also on exits a change adds (erased code)
   //@atend | <text>                  ghost/proof line placed before the closing brace of the body (fall-through exit only; erased code)
   //@ghost | <text>                  (ghost/proof line placed right after the opening brace of the body; erased code)
 
@@ -789,6 +791,7 @@ def expand(template_path, repo='/repo'):
 
     out = []
     emitted_thunks = []
+    auto_consts = {}
     side = {'template': os.path.basename(template_path), 'functions': [], 'types': [], 'dropped_statements': [],
             'dropped_derives': [], 'files': {}}
     i = 0
@@ -841,8 +844,9 @@ def expand(template_path, repo='/repo'):
             loopends = {}
             loopafters = {}
             lec = []
+            atreturn = []
             while i + 1 < len(tpl) and (tpl[i + 1].strip().startswith('//@|') or tpl[i + 1].strip().startswith('//@loop')
-                                        or tpl[i + 1].strip().startswith('//@ghost') or tpl[i + 1].strip().startswith('//@dropstmt') or tpl[i + 1].strip().startswith('//@atend') or tpl[i + 1].strip().startswith('//@before')
+                                        or tpl[i + 1].strip().startswith('//@ghost') or tpl[i + 1].strip().startswith('//@dropstmt') or tpl[i + 1].strip().startswith('//@atend') or tpl[i + 1].strip().startswith('//@atreturn') or tpl[i + 1].strip().startswith('//@before')
                                         or tpl[i + 1].strip().startswith('//@continue_to_else') or tpl[i + 1].strip().startswith('//@letelse_continue') or tpl[i + 1].strip().startswith('//@loopend') or tpl[i + 1].strip().startswith('//@loopafter') or tpl[i + 1].strip().startswith('//@lift') or tpl[i + 1].strip().startswith('//@sigsubst') or tpl[i + 1].strip().startswith('//@mapor') or tpl[i + 1].strip().startswith('//@thunk') or tpl[i + 1].strip().startswith('//@okmap') or tpl[i + 1].strip().startswith('//@mapdefault')):
                 i += 1
                 t = tpl[i].strip()
@@ -901,6 +905,8 @@ def expand(template_path, repo='/repo'):
                 elif t.startswith('//@before'):
                     nd, txt = t[len('//@before'):].split('|', 1)
                     befores.append((nd.strip(), txt.strip()))
+                elif t.startswith('//@atreturn'):
+                    atreturn.append(t.split('|', 1)[1].strip())
                 elif t.startswith('//@atend'):
                     atend.append('        ' + t.split('|', 1)[1].strip())
                 elif t.startswith('//@ghost'):
@@ -970,6 +976,14 @@ def expand(template_path, repo='/repo'):
             if ret:
                 sig = _name_return(sig, ret)
             body, dropped = rc.drop_statements(fn['body'])
+            # rule 24: file-level constants the body mentions are copied verbatim (once), unless the template defines them itself
+            for cn in sorted(set(re.findall(r'(?<![A-Za-z0-9_:.])[A-Z][A-Z0-9_]{2,}(?![A-Za-z0-9_(!])', body))):
+                if cn in auto_consts or re.search(r'\bconst\s+' + cn + r'\b', '\n'.join(tpl)):
+                    continue
+                mc = re.search(r'(?m)^(?:pub(?:\([^)]*\))?\s+)?const\s+' + cn + r'\s*:\s*([^=;]+)=\s*([^;]+);', text)
+                if mc:
+                    auto_consts[cn] = 'pub const %s: %s = %s;' % (cn, mc.group(1).strip(), mc.group(2).strip())
+                    side.setdefault('copied_constants', []).append({'fn': name, 'const': auto_consts[cn], 'file': f})
             for needle, rep in dropstmts:
                 body, what = _replace_statement(body, needle, rep, name)
                 side.setdefault('replaced_statements', []).append({'fn': name, 'dropped_sha256': hashlib.sha256(what.encode()).hexdigest()[:16], 'dropped_head': re.sub(r'\s+', ' ', what)[:120], 'replacement': rep})
@@ -1078,6 +1092,20 @@ def expand(template_path, repo='/repo'):
                 if pos is None:
                     raise CutError('fn %s: statement for //@before not found: %s' % (name, needle))
                 body = body[:pos] + txt + '\n        ' + body[pos:]
+            if atreturn:
+                txt_ = ' '.join(atreturn)
+                pos_list = []
+                for j, d in rc.code_positions(body):
+                    if body.startswith('return', j) and (j == 0 or not (body[j - 1].isalnum() or body[j - 1] == '_')) and not (body[j + 6].isalnum() or body[j + 6] == '_'):
+                        k = j - 1
+                        while k >= 0 and body[k].isspace(): k -= 1
+                        if k >= 0 and body[k] not in '{;}':
+                            raise CutError('fn %s: atreturn: a `return` in expression position' % name)
+                        pos_list.append(j)
+                for j in reversed(pos_list):
+                    body = body[:j] + txt_ + ' ' + body[j:]
+                cb_ = body.rindex('}')
+                body = body[:cb_] + '    ' + txt_ + '\n    ' + body[cb_:]
             if atend:
                 cb_ = body.rindex('}')
                 body = body[:cb_] + '\n'.join(atend) + '\n    ' + body[cb_:]
@@ -1105,7 +1133,12 @@ def expand(template_path, repo='/repo'):
         i += 1
     for f, text in cache.items():
         side['files'][f] = hashlib.sha256(text.encode()).hexdigest()
-    return '\n'.join(out) + '\n', side
+    gen = '\n'.join(out) + '\n'
+    if auto_consts:
+        mv = re.search(r'(?m)^verus!\s*\{\s*$', gen)
+        if mv:
+            gen = gen[:mv.end()] + '\n// constants copied verbatim from the repo (extraction rule 24)\n' + '\n'.join(auto_consts.values()) + gen[mv.end():]
+    return gen, side
 
 
 if __name__ == '__main__':
